@@ -191,9 +191,15 @@ SRPM_A = "glibc-0:2.18-11.fc20.src"
 SRPM_B = "bash-0:4.2-1.fc20.src"
 
 
-def rpms_old_src(sym, layout, twice=False):
-    """rpms 0.3 documents: every source RPM is re-filed under each binary arch that lists packages built from it"""
+SPELLINGS = {"canonical": "%s", "rpm-suffix": "%s.rpm", "dir-prefix": "Packages/g/%s", "dir-and-suffix": "SRPMS/%s.rpm"}
+
+
+def rpms_old_src(sym, layout, twice=False, spelling="canonical"):
+    """rpms 0.3 documents: every source RPM is re-filed under each binary arch that lists packages built from it.
+    spelling: how the old document spells its source-package keys (the same way in the binary and in the src section); the loaded
+    manifest is keyed canonically either way"""
     manifest = {}
+    sp = SPELLINGS[spelling]
     expect = {}
     minor = sym.int("minor", 0, 3)
     for variant, arches, has_src in layout:
@@ -205,12 +211,12 @@ def rpms_old_src(sym, layout, twice=False):
                 name = s.split("-")[0]
                 e1 = rpm_entry(sym, "%s_%s_%s" % (variant, a, name), "package")
                 e2 = rpm_entry(sym, "%s_%s_%s_dbg" % (variant, a, name), "debug")
-                manifest[variant][a][s] = {"%s-0:1-1.%s" % (name, a): e1, "%s-debuginfo-0:1-1.%s" % (name, a): e2}
+                manifest[variant][a][sp % s] = {"%s-0:1-1.%s" % (name, a): e1, "%s-debuginfo-0:1-1.%s" % (name, a): e2}
                 expect[(variant, a, s)] = (name, e1, e2)
         if has_src:
             manifest[variant]["src"] = {}
             for s in (SRPM_A, SRPM_B):
-                manifest[variant]["src"][s] = rpm_entry(sym, "%s_src_%s" % (variant, s.split("-")[0]), "source")
+                manifest[variant]["src"][sp % s] = rpm_entry(sym, "%s_src_%s" % (variant, s.split("-")[0]), "source")
     doc = {"header": {"version": "0.%d" % minor},
            "payload": {"compose": {"id": "Fedora-20-20131212.0", "type": "production", "date": "20131212", "respin": 0}, "manifest": manifest}}
     m = Rpms()
@@ -231,7 +237,7 @@ def rpms_old_src(sym, layout, twice=False):
             "%s-debuginfo-0:1-1.%s" % (name, a): {"path": e2["path"], "sigkey": e2["sigkey"], "category": "debug"},
         }
         if has_src:
-            se = manifest[variant]["src"][s]
+            se = manifest[variant]["src"][sp % s]
             want[s] = {"path": se["path"], "sigkey": se["sigkey"], "category": "source"}
         sym.check("entries[%s,%s,%s]" % (variant, a, s.split("-")[0]), got == want)
     out = json.loads(m.dumps())
@@ -270,6 +276,9 @@ def jobs(tier, seed):
         for ws in (True, False):
             out.append({"harness": "images_old_src", "params": {"layout": lay, "with_subvariant": ws}})
         out.append({"harness": "rpms_old_src", "params": {"layout": lay}})
+        sp = sorted(SPELLINGS)[1:]
+        for spelling in (sp if big else [sp[(len(out) + seed) % len(sp)]]):
+            out.append({"harness": "rpms_old_src", "params": {"layout": lay, "spelling": spelling}})
         if lay in (LAYOUTS[1], LAYOUTS[4]):
             out.append({"harness": "rpms_old_src", "params": {"layout": lay, "twice": True}})
     return out
@@ -284,6 +293,7 @@ META = {
         "histories: three adds on one manifest (the same arch three times, or a second arbitrary one in between), arch strings up to 8 (thorough 12) characters",
         "old documents: layouts from a catalogue (1-2 variants, 1-3 binary arches, src entry present/absent), every leaf symbolic; "
         "images header version 1.0/1.1 and rpms header version 0.0-0.3 as a symbolic integer; a variant with only a src entry is outside the claim",
+        "old rpms documents spell their source-package keys canonically, with a '.rpm' suffix, with a directory prefix or both (the same way in the binary and the src section)",
         "JSON text layer replaced by the DocText stub",
         "histories across objects: before an old images document is converted, another one with the same variant names and other arch sets was loaded into another object",
     ],
